@@ -1,4 +1,5 @@
 import FalconModel.Static
+import FalconModel.StaticResp
 open St
 
 /-! Line-protocol driver for the static-route model (C16). Strings are hex of their UTF-8 bytes, `-` = empty.
@@ -6,7 +7,16 @@ open St
       serve FB DIR SUFFIX             → reject | open PATH                                 (sanitise → normpath → resolve)
       resolve DIR N                   → reject | open PATH                                 (the tail for an arbitrary normpath result N)
       norm S                          → path P                                             (`posixpath.normpath`)
-      sanitise FB S                   → ok | reject -/
+      sanitise FB S                   → ok | reject
+    Response side (`Sr`, StaticResp.lean); BYTES are hex, `-` = empty:
+      match PFX HASFB PATH            → true | false                                       (`StaticRoute.match` after `__init__`'s prefix fix-up)
+      route PATH PFX:FB ...           → index of the first matching route | none           (`app._static_routes` order)
+      bfile BYTES POS LEN S,S,...     → r BYTES ... rem N     one `r` per `_BoundedFile.read(S)` (`N` = None), then `remaining`
+      setrange BYTES none|START END   → raw POS LEN - | bounded POS REM LEN F-L/SIZE | unsat SIZE   (`_set_range`: stream kind, fh.tell(), …)
+      fsreset / file PATH BYTES LM    → ok                                                 (the file system for `call`)
+      call OPT PFX DIR DL FB|none PATH IMS RANGE → opens=P,P… then
+            options | 404 | 400 LM | 304 LM | 416 LM SIZE | 200|206 LM LEN F-L/SIZE|- BODY dl=NAME|none
+            (IMS = absent | bad | seconds; RANGE = absent | hex of the header value; BODY = the stream drained in 8192-byte reads) -/
 def show' : RangeOut → String
   | .whole n => s!"whole {n}"
   | .partial_ a b c => s!"partial {a} {b} {c}"
@@ -28,8 +38,84 @@ def showOpen : Option (List Char) → String
   | none => "reject"
   | some p => "open " ++ hex p
 
+def unhexBytes (s : String) : List UInt8 := if s == "-" then [] else unhexB s.toList
+def hexBytes (b : List UInt8) : String :=
+  if b.isEmpty then "-" else String.ofList (b.flatMap fun x => [hexDigit (x.toNat / 16), hexDigit (x.toNat % 16)])
+
+def showCr : Option (Nat × Nat × Nat) → String
+  | none => "-"
+  | some (f, l, sz) => s!"{f}-{l}/{sz}"
+
+def showSetRange : Sr.SetRange → String
+  | .unsat n => s!"unsat {n}"
+  | .ok (.raw fh) len cr => s!"raw {fh.pos} {len} {showCr cr}"
+  | .ok (.bounded b) len cr => s!"bounded {b.fh.pos} {b.remaining} {len} {showCr cr}"
+
+def parseSize (s : String) : Option (Option Int) := if s == "N" then some none else s.toInt?.map some
+
+def showOut : Sr.Out → String
+  | .options => "options"
+  | .notFound => "404"
+  | .invalidHeader lm => s!"400 {lm}"
+  | .notModified lm => s!"304 {lm}"
+  | .unsat lm n => s!"416 {lm} {n}"
+  | .served st lm stream len cr dl =>
+    let body := Sr.drain 8192 (stream.window.length + 1) stream
+    let d := match dl with | none => "none" | some n => hex n
+    s!"{st} {lm} {len} {showCr cr} {hexBytes body} dl={d}"
+
+abbrev FsTab := List (List Char × Sr.File)
+def lookupFs (t : FsTab) : Sr.Fs := fun p => (t.find? (fun e => e.1 == p)).map (·.2)
+
+def parseIms (s : String) : Option Sr.Ims :=
+  if s == "absent" then some .absent else if s == "bad" then some .bad else s.toInt?.map .ok
+
+def stepFs (fs : FsTab) (line : String) : FsTab × String :=
+  match line.trimAscii.toString.splitOn " " with
+  | ["fsreset"] => ([], "ok")
+  | ["file", p, d, lm] =>
+    match unhex p, lm.toInt? with
+    | some p, some lm => ((p, { data := unhexBytes d, lm := lm }) :: fs, "ok")
+    | _, _ => (fs, "bad-args")
+  | ["call", opt, pfx, dir, dl, fb, path, ims, rng] =>
+    let fbv : Option (Option (List Char)) := if fb == "none" then some none else (unhex fb).map some
+    let rv : Option (Option (List Char)) := if rng == "absent" then some none else (unhex rng).map some
+    match unhex pfx, unhex dir, fbv, unhex path, parseIms ims, rv with
+    | some pfx, some dir, some fbv, some path, some ims, some rv =>
+      let rt : Sr.Route := { pfx := pfx, dir := dir, downloadable := dl == "1", fallback := fbv }
+      let r := Sr.call rt (lookupFs fs) { isOptions := opt == "1", path := path, ims := ims, range := rv }
+      (fs, "opens=" ++ ",".intercalate (r.1.map hex) ++ " " ++ showOut r.2)
+    | _, _, _, _, _, _ => (fs, "bad-args")
+  | _ => (fs, "")
+
 def step (line : String) : String :=
   match line.trimAscii.toString.splitOn " " with
+  | ["match", pfx, fb, path] =>
+    match unhex pfx, unhex path with
+    | some pfx, some path => toString (Sr.matches (Sr.mkRoute pfx [] false (if fb == "1" then some [] else none)) path)
+    | _, _ => "bad-utf8"
+  | "route" :: path :: routes =>
+    match unhex path with
+    | none => "bad-utf8"
+    | some path =>
+      let rts := routes.filterMap fun r =>
+        match r.splitOn ":" with
+        | [p, fb] => (unhex p).map fun p => Sr.mkRoute p [] false (if fb == "1" then some [] else none)
+        | _ => none
+      match Sr.findRouteIdx rts path with
+      | some i => toString i
+      | none => "none"
+  | ["bfile", d, pos, len, sizes] =>
+    match pos.toNat?, len.toNat?, (sizes.splitOn ",").mapM parseSize with
+    | some pos, some len, some szs =>
+      let r := Sr.Bounded.reads ⟨⟨unhexBytes d, pos⟩, len⟩ szs
+      " ".intercalate (r.1.map fun b => "r " ++ hexBytes b) ++ s!" rem {r.2.remaining}"
+    | _, _, _ => "bad-args"
+  | ["setrange", d, "none"] => showSetRange (Sr.setRange (unhexBytes d) none)
+  | ["setrange", d, a, b] =>
+    match a.toInt?, b.toInt? with
+    | some a, some b => showSetRange (Sr.setRange (unhexBytes d) (some (a, b)))
+    | _, _ => "bad-args"
   | ["range", sz, a, b] =>
     match sz.toNat?, a.toInt?, b.toInt? with
     | some sz, some a, some b => show' (setRange sz a b)
@@ -46,9 +132,10 @@ def step (line : String) : String :=
   | ["sanitise", fb, s] => match unhex s with | some s => (if sanitise (fb == "1") s then "ok" else "reject") | none => "bad-utf8"
   | _ => "bad-op"
 
-partial def loop (h : IO.FS.Stream) : IO Unit := do
+partial def loop (h : IO.FS.Stream) (fs : FsTab) : IO Unit := do
   let line ← h.getLine
   if line.isEmpty then return ()
-  IO.println (step line)
-  loop h
-def main : IO Unit := do loop (← IO.getStdin)
+  let (fs', r) := stepFs fs line
+  if r.isEmpty then IO.println (step line) else IO.println r
+  loop h fs'
+def main : IO Unit := do loop (← IO.getStdin) []
